@@ -56,8 +56,9 @@ Inductive tr := TMap (a b : Z) (dt : option Z) | TDrop | TAdd.
 
 Definition tr_new_shape (t : tr) (shape : list Z) : list Z :=
   match t with TMap _ _ _ => shape | TDrop => removelast shape | TAdd => shape ++ [1] end.
-Definition tr_dtype (t : tr) (dt : Z) : Z :=
-  match t with TMap _ _ (Some d) => d | _ => dt end.
+(* one step of the dtype property's fold: `transform.dtype if transform.dtype is not None else dtype` (generated) *)
+Definition tr_declared (t : tr) : option Z := match t with TMap _ _ d => d | _ => None end.
+Definition tr_dtype (t : tr) (dt : Z) : Z := lazy_dtype_step (tr_declared t) dt.
 
 Record arr := mk_arr { a_dtype : Z; a_nd : nd }.
 
@@ -142,11 +143,18 @@ Record seg := mk_seg { sg_start : Z; sg_stop : Z; sg_step : Z; sg_post : post; s
 
 Inductive plan := PScalar (z : Z) | PSegs (l : list seg).
 
-(* runs of consecutive integers [first, last+1) of a sorted list: jumps where diff > 1 *)
+(* np.any(np.diff(dim_keep) <= 0): the test on one difference is generated from the source *)
+Fixpoint sorted_ok (l : list Z) : bool :=
+  match l with
+  | [] => true
+  | x :: r => match r with [] => true | y :: _ => negb (lazy_diff_rejected (y - x)) && sorted_ok r end
+  end.
+
+(* runs of consecutive integers [first, last+1) of a sorted list: jumps where np.diff(dim_keep) > 1 (generated) *)
 Fixpoint runs (first prev : Z) (l : list Z) : list (Z * Z) :=
   match l with
   | [] => [(first, prev + 1)]
-  | x :: r => if x - prev >? 1 then (first, prev + 1) :: runs x x r else runs first x r
+  | x :: r => if lazy_jump (x - prev) then (first, prev + 1) :: runs x x r else runs first x r
   end.
 Definition segments (l : list Z) : list (Z * Z) := match l with [] => [] | x :: r => runs x x r end.
 
@@ -172,7 +180,7 @@ Definition adv_plan (n : Z) (l : list Z) : res plan :=
   match l with
   | [] => Ok (PSegs [mk_seg 0 1 1 PEmpty 0 0])
   | x :: _ =>
-      if (x <? 0) || (n <=? last l 0) then Err
+      if lazy_out_of_range x (last l 0) n then Err     (* dim_keep[0] < 0 or dim_keep[-1] >= dim_len (generated) *)
       else Ok (PSegs (adv_segs (dense (zlen l) n (zlen (segments l))) l))
   end.
 
@@ -185,7 +193,7 @@ Definition axis_plan (n : Z) (m : mapped) : res plan :=
       | Some (s, e, st) => Ok (PSegs [mk_seg s e st PAll 0 (range_len s e st)])
       end
   | MMask m => if zlen m =? n then adv_plan n (nonzero m) else Err
-  | MArr l => if increasing l then adv_plan n l else Err
+  | MArr l => if sorted_ok l then adv_plan n l else Err
   end.
 
 (* dataset[slice(s, e, st)] on an axis of length n: positions read (Python slice semantics) *)
@@ -278,20 +286,7 @@ Definition of_arr (r : res arr) : sx :=
   end.
 Definition of_shape (r : res (list Z)) : sx := match r with Ok s => L [I 1; of_Zs s] | Err => L [I 0] end.
 
-(* (shape k1 ts dt k2) -> (model spec shape-property dtype-property), dataset = elements of dtype dt labelled in C order *)
-Definition wire_5 (x : sx) : sx :=
-  match x with
-  | L [shape; k1; ts; I dt; k2] =>
-      let shape := to_Zs shape in let k1 := map to_aidx (to_list k1) in
-      let ts := map to_tr (to_list ts) in let k2 := map to_aidx (to_list k2) in
-      let ds := tree_map (enc_val dt) (arange shape 0) in
-      let spec := of_arr (spec_getitem shape ds k1 ts dt k2) in
-      match mk_lazy shape k1 ts dt with
-      | Err => L [L [I 0]; spec; L [I 0]; I 0]
-      | Ok li => L [of_arr (getitem li ds k2); spec; of_shape (lazy_shape li); I (lazy_dtype li)]
-      end
-  | _ => sx_err
-  end.
+(* wire_5 (the LazyIndexer case) lives in Model/LazyNd.v: it runs the N-d chunk loop *)
 
 (* differential of PySlice against Python: (n a b c) -> (ok start stop step positions) *)
 Definition wire_50 (x : sx) : sx :=
